@@ -253,7 +253,7 @@ type Summary struct {
 	Samples      []any          `json:"samples"`
 	Distribution map[string]int `json:"distribution"`
 	Shards       []string       `json:"shards"`
-	Index        map[string]any `json:"index"` // case id -> replay information
+	Index        map[string]any `json:"index"`             // case id -> replay information
 	Direct       []any          `json:"direct_violations"` // violations decided by the harness itself
 	Exhaustive   bool           `json:"exhaustive"`
 	WallS        float64        `json:"wall_s"`
